@@ -24,6 +24,8 @@ DECIDED_R6 = ('Round 6: class-level containers handed out and default-argument o
 DECIDED = DECIDED + ' ' + DECIDED_R6
 DECIDED_R7 = ('Round 7: no mutator call on a caught / received response object.')
 DECIDED = DECIDED + ' ' + DECIDED_R7
+DECIDED_R8 = ("Round 8: the handlers of wsgi's outer try read nothing from the per-thread objects; every container BaseResponse.__init__ stores is made by that call; apply() only reads the applied response.")
+DECIDED = DECIDED + ' ' + DECIDED_R8
 NOT_DECIDED = ('equality of each response with the fresh-application response over all histories; liveness counts at run time '
                '(only the structural retention paths above).')
 ASSUMPTIONS = ['request.__init__ / response.__init__ themselves do not raise', 'user handlers are outside the claim']
@@ -148,6 +150,9 @@ def check(P, R):
     check_init_dominance(P, R, 'C09.a')
     check_critical_page_from_environ(P, R, 'C09.a')
     check_error_objects_read_only(P, R, 'C09.c')
+    # ... nor read through the slots the interpreter writes at every raise (whatever an earlier request's raise left there)
+    from . import c08 as _c08
+    _c08.check_no_interpreter_slots_read(P, R, 'C09.c')
     # BaseResponse.__init__ resets all per-request fields
     bi = P.func(f'{RS}:BaseResponse.__init__')
     g = bi.cfg
@@ -563,6 +568,20 @@ def check_shared_writes(P, R, rid, strict=False, same_for_all_threads_ok=False, 
                                                   for m_ in k_.methods.values() if m_.name != '__init__' for s_ in walk_shallow(m_.node)):
                             pooled = k_
             carries = carries or pooled is not None
+            # a latch: a constant stored into a class attribute whose class-level value is another constant - the first request that gets here changes what
+            # every later request reads
+            latch = None
+            if w['kind'] == 'attr-assign' and w['target'].startswith('classattr:') and isinstance(n, ast.Assign) and isinstance(n.value, ast.Constant):
+                cfq_, _, an_ = w['target'][len('classattr:'):].rpartition('.')
+                k_ = P.classes.get(cfq_)
+                dv_ = None
+                for kk_ in (P.mro(k_) if k_ is not None else []):
+                    if an_ in kk_.attrs:
+                        dv_ = kk_.attrs[an_]
+                        break
+                if isinstance(dv_, ast.Constant) and dv_.value != n.value.value:
+                    latch = (an_, dv_.value, n.value.value)
+            carries = carries or latch is not None
             resets = [g.node_of_stmt(x['node'])[0] for x in ws if x['func'] is f and x['target'] == w['target']
                       and x['kind'] in ('call:clear', 'slice-assign', 'global-assign') and x is not w]
             scratch = bool(resets) and g.must_pass(g.entry, at, resets)
@@ -570,6 +589,9 @@ def check_shared_writes(P, R, rid, strict=False, same_for_all_threads_ok=False, 
             if not ok and pooled is not None:
                 detail = (f'an instance of {pooled.name} (whose methods keep state on self) is parked in {w["target"]} and reused for later requests: whatever a '
                           f'request leaves in it (e.g. the expected continuation of a cut header terminator) is applied to the next request')
+            elif not ok and latch is not None:
+                detail = (f'`{short(n)}` flips the class-level `{latch[0]}` from {latch[1]!r} to {latch[2]!r} for the whole process: after the first request that gets here every '
+                          f'later request (and every other instance) reads the new value - the same request is answered differently depending on what was served before')
             elif not ok:
                 detail = (f'request-derived data is written into {w["target"]} ({w["kind"]}), a location that outlives the request, '
                           f'without a preceding reset: it is visible to later requests and grows with the number of requests')
